@@ -62,6 +62,7 @@ func runBasisExtender(c *eng.Ctx, cfg pcfg) {
 					continue
 				}
 				r0 := canonPoly(rOut, out)
+				t.independentAny(api, api+" fresh "+variant, []any{&out}, []named{{"pQ", &pq}, {"pP", &pp}})
 				if r.alias {
 					t.distinct(api, "out=in", "poly", variant, true)
 					pq, pp := cpPoly(PQ), cpPoly(PP)
